@@ -377,14 +377,12 @@ POOL_PRIMS = {"map", "imap", "imap_unordered", "uimap", "amap", "map_async", "st
 
 
 def walk_no_nested(node):
-    """walk a function body without descending into nested function/class defs"""
-    stack = list(ast.iter_child_nodes(node))
-    while stack:
-        n = stack.pop()
-        yield n
-        if isinstance(n, (ast.FunctionDef, ast.AsyncFunctionDef, ast.ClassDef, ast.Lambda)):
+    """pre-order (source order) walk of a function body without descending into nested function/class defs"""
+    for c in ast.iter_child_nodes(node):
+        yield c
+        if isinstance(c, (ast.FunctionDef, ast.AsyncFunctionDef, ast.ClassDef, ast.Lambda)):
             continue
-        stack.extend(ast.iter_child_nodes(n))
+        yield from walk_no_nested(c)
 
 
 def calls_in(node, pred=None):
